@@ -9,6 +9,7 @@ Part 2 (`reads_exact`, see the end of the file): on `Spec.Frag01` the walk's tab
 import SqlLineage.Model.Runner
 import SqlLineage.Spec.Tables
 import SqlLineage.Proofs.ReadsExact
+import SqlLineage.Proofs.FragDev
 
 namespace SqlLineage.Props.C01
 open SqlLineage Ast Walk
@@ -279,6 +280,27 @@ theorem stmt_exact_partial (env : Env) (silent : Bool) (s : Stmt) (hs : stmtFrag
   | merge _ _ _ _ _ _ => simp [stmtFrag] at hs
   | copy _ _ => simp [stmtFrag] at hs
   | unsupported _ => simp [stmtFrag] at hs
+
+/-- **the proved fragment lies inside `Spec.Frag01`**: a statement of `stmtFrag` falls in no deviation class, so
+    `stmt_exact_partial` is an instance of the full statement `reads_exact` (not a theorem about other inputs) -/
+theorem stmtFrag_sub_Frag01 (s : Stmt) (hs : stmtFrag s = true) : Spec.Frag01 s := by
+  unfold Spec.Frag01 Spec.deviations
+  cases s with
+  | query q b => simp only [stmtFrag] at hs; simp [Spec.stmtQuery?, fragQ_no_deviation q hs]
+  | insert kind tk tgt cols q b => simp only [stmtFrag] at hs; simp [Spec.stmtQuery?, fragQ_no_deviation q hs]
+  | ctas tgt o i q b => simp only [stmtFrag] at hs; simp [Spec.stmtQuery?, fragQ_no_deviation q hs]
+  | createView tgt o cols q => simp only [stmtFrag] at hs; simp [Spec.stmtQuery?, fragQ_no_deviation q hs]
+  | insertValues _ _ _ => rfl
+  | createTable _ _ _ => rfl
+  | createTableLike _ _ => rfl
+  | drop _ _ _ => rfl
+  | alterRename _ _ => rfl
+  | renameTable _ => rfl
+  | noop _ _ => rfl
+  | update _ _ _ _ _ => rfl
+  | merge _ _ _ _ _ _ => rfl
+  | copy _ _ => rfl
+  | unsupported _ => rfl
 
 /-! ### non‑vacuity: a nested statement inside the fragment on which the walk succeeds
 
